@@ -169,6 +169,10 @@ pub fn factor(n: Uint, alg: Algo, prefs: &Preferences) -> Result<Vec<Uint>, Fact
     if n.is_zero() {
         return Ok(vec![n]);
     }
+    if n.bits() > 64 * arith_montgomery::MINT_WORDS as u32 {
+        // Modular arithmetic is limited to 512-bit moduli.
+        return Err(FactoringFailure);
+    }
     let mut factors = vec![];
     if prefs.verbose(Verbosity::Info) {
         eprintln!("Testing small prime divisors");
